@@ -30,6 +30,7 @@ enum Step {
     Stream(usize), // connect + a slow streaming call (reads to the final reply in a thread)
     Close(usize),
     Stop,
+    Signal, // a signal (with a handler) is delivered to the thread that runs listen()
 }
 
 struct Scenario {
@@ -79,6 +80,11 @@ fn scenarios(rng: &mut Rng) -> Vec<Scenario> {
     v.push(Scenario { name: "arrivals-right-after-stop", initial: 1, max: 4, idle_s: 0, has_stop: true,
         steps: vec![Sleep(j(rng, 20, 60)), Stop, Connect(1), Sleep(j(rng, 20, 30)), Connect(2), Sleep(j(rng, 20, 30)), Connect(3), Sleep(j(rng, 150, 100)),
                     Close(1), Close(2), Close(3)], expect: "ok" });
+    // a signal that interrupts the wait for connections changes nothing: the idle period and the stop flag are still honoured
+    v.push(Scenario { name: "signal-while-idle", initial: 1, max: 2, idle_s: 1, has_stop: false,
+        steps: vec![Sleep(j(rng, 200, 300)), Signal], expect: "timeout" });
+    v.push(Scenario { name: "signal-then-stop", initial: 1, max: 2, idle_s: 0, has_stop: true,
+        steps: vec![Sleep(j(rng, 50, 100)), Signal, Sleep(j(rng, 50, 100)), Stop], expect: "ok" });
     v.push(Scenario { name: "arrival-right-after-stop-idle1", initial: 1, max: 2, idle_s: 1, has_stop: true,
         steps: vec![Sleep(j(rng, 100, 200)), Stop, Stream(1), Sleep(j(rng, 300, 100)), Close(1)], expect: "ok" });
     v
@@ -108,7 +114,10 @@ fn run_scenario(sc: &Scenario, idx: usize, transport: &str, tr: &Tr) -> Result<(
     let service = svc::standard_service(log);
     let a2 = addr.clone();
     let t_start = Instant::now();
+    let listen_thread = Arc::new(std::sync::atomic::AtomicU64::new(0));
+    let lt2 = listen_thread.clone();
     let th = std::thread::spawn(move || {
+        lt2.store(unsafe { libc::pthread_self() } as u64, Ordering::SeqCst);
         let r = varlink::listen(service, &a2, &cfg);
         (r, Instant::now())
     });
@@ -210,6 +219,20 @@ fn run_scenario(sc: &Scenario, idx: usize, transport: &str, tr: &Tr) -> Result<(
                 tr.log(json!({"ev": "close", "j": j}));
                 conns.remove(j);
                 last_close = Instant::now();
+            }
+            Step::Signal => {
+                extern "C" fn on_signal(_: libc::c_int) {}
+                unsafe {
+                    let mut sa: libc::sigaction = std::mem::zeroed();
+                    sa.sa_sigaction = on_signal as usize;
+                    libc::sigemptyset(&mut sa.sa_mask);
+                    sa.sa_flags = 0; // no SA_RESTART: blocking calls are interrupted
+                    libc::sigaction(libc::SIGUSR1, &sa, std::ptr::null_mut());
+                    let t = listen_thread.load(Ordering::SeqCst);
+                    if t != 0 {
+                        libc::pthread_kill(t as libc::pthread_t, libc::SIGUSR1);
+                    }
+                }
             }
             Step::Stop => {
                 tr.log(json!({"ev": "set_stop_begin"}));
